@@ -192,6 +192,10 @@ class Ctx:
                     break
             print("%s: %d violating cases (%d distinct clause/site), wall %.1fs" % (self.pid, len(self.violations), len(seen), wall))
             return 1
+        try:
+            os.remove(os.path.join(OUT, "violations-%s.json" % self.pid))
+        except OSError:
+            pass
         print("%s: OK tier=%s states=%d traces=%d evaluations=%d nontrivial=%d wall=%.1fs" % (
             self.pid, self.tier, self.states, self.traces, self.evaluations, len(self.nontrivial), wall))
         return 0
